@@ -18,6 +18,9 @@ def main():
         if a.prop in ('C01', 'C02', 'C03', 'C04', 'C05', 'C06', 'C07', 'C08', 'C09', 'C19'):
             from . import mapper_run
             rc = mapper_run.check(a.prop, a.tier, seed)
+        elif a.prop in ('C10', 'C11', 'C12', 'C20'):
+            from . import loopcheck
+            rc = loopcheck.check(a.prop, a.tier, seed)
         else:
             print('unknown property ' + a.prop)
             rc = 2
